@@ -156,7 +156,7 @@ def tlc(wd, module, cfg=None, workers=None, env=None, timeout=1200, extra=(), xm
     res = TlcResult()
     md = os.path.join(wd, 'md_%s_%d_%d' % (tag or module, os.getpid(), random.randrange(1 << 30)))
     jt = os.path.join(wd, 'jtmp'); os.makedirs(jt, exist_ok=True)
-    cmd = ['java', '-XX:+UseParallelGC', '-Xss64m', '-Djava.io.tmpdir=' + jt, '-Xmx' + xmx, '-cp', TLAJAR, 'tlc2.TLC', '-metadir', md, '-nowarning',
+    cmd = ['java', '-XX:+UseParallelGC', '-Xss512m', '-Djava.io.tmpdir=' + jt, '-Xmx' + xmx, '-cp', TLAJAR, 'tlc2.TLC', '-metadir', md, '-nowarning',
            '-workers', str(workers or NCPU)]
     if cfg:
         cmd += ['-config', cfg]
@@ -332,6 +332,10 @@ def validate_trace(wd, module, cfg, trace_path, nsplit=None, timeout=1800, env=N
             open(p, 'w').write('\n'.join(lines[cur:hi]) + '\n')
             e = dict(env or {}); e['TRACE'] = p
             r = tlc(wd, module, cfg, workers=1, env=e, timeout=timeout, xmx=xmx, tag='tv%d_%d' % (lo, rounds))
+            for again in range(3):      # a JVM stack / heap failure is not a property of the trace: run the same part again
+                if not any(k in r.out for k in ('StackOverflowError', 'OutOfMemoryError', 'Java heap space')):
+                    break
+                r = tlc(wd, module, cfg, workers=1, env=e, timeout=timeout, xmx=xmx, tag='tv%d_%d_%d' % (lo, rounds, again))
             try:
                 os.remove(p)
             except OSError:
@@ -368,9 +372,15 @@ def validate_trace(wd, module, cfg, trace_path, nsplit=None, timeout=1800, env=N
                         os.remove(p1)
                     except OSError:
                         pass
+                    jvm_trouble = any(k in (r1.out or '') for k in ('StackOverflowError', 'OutOfMemoryError', 'Java heap space', 'GC overhead', 'java.io.', 'Could not'))
+                    value_error = any(k in (r1.out or '') for k in ('Attempted to', 'not in the domain', 'is not a function', 'was applied to', 'In evaluation, the identifier',
+                                                                      'nonexistent field', 'which is not', 'non-enumerable', 'Evaluating an expression of the form'))
                     if r1.rc == 0 and r1.diameter - 1 >= 1:
                         acc += 1; infra.pop()        # fine on its own: the earlier failure was the run, not the record
                         infra.append('record %d: TLC failed in the chunk but accepts the record alone' % bad)
+                    elif jvm_trouble or not value_error:
+                        # a failure of the JVM / of TLC itself (stack, heap, I/O) says nothing about the record: never a verdict
+                        infra.append('record %d: TLC could not be run to a verdict on the record alone (%s)' % (bad, (r1.error or 'rc=%s' % r1.rc)[:120]))
                     elif r1.rc != 124:
                         try:
                             rec = json.loads(lines[bad])
